@@ -91,6 +91,33 @@ def analyse(t, hole: Q) -> Q | None:
         return Q("const", ops=["naive datetime read in the local time zone"],
                  issues=[f"T-epoch: {t[1]}() of the naive {show(t[2]) if len(t) > 2 else 'datetime'} depends on the time zone of the process "
                          f"that imports kio: under TZ=America/New_York every value is off by five hours"])
+    if h == "add" and len(t) == 3:
+        # days * 86_400_000 + seconds * 1000 + microseconds // 1000 of ONE timedelta: its whole milliseconds, exactly (a normalised
+        # timedelta has 0 <= seconds < 86400 and 0 <= microseconds < 10**6, only days is signed, so flooring the last part floors the whole)
+        parts = []
+
+        def flat(x):
+            if isinstance(x, list) and len(x) == 3 and x[0] == "add":
+                flat(x[1])
+                flat(x[2])
+            else:
+                parts.append(x)
+        flat(t)
+        comp, base = {}, None
+        for x in parts:
+            if not (isinstance(x, list) and len(x) == 3 and x[0] in ("mul", "floordiv")):
+                comp = None
+                break
+            u, c = (x[1], k_const(x[2])) if k_const(x[2]) is not None else (x[2], k_const(x[1])) if x[0] == "mul" else (None, None)
+            if not (isinstance(u, list) and len(u) == 3 and u[0] == "attr" and isinstance(c, int)) or (base is not None and u[1] != base) or u[2] in comp:
+                comp = None
+                break
+            base = u[1]
+            comp[u[2]] = (x[0], c)
+        if comp == {"days": ("mul", 86400000), "seconds": ("mul", 1000), "microseconds": ("floordiv", 1000)}:
+            q = analyse(base, hole)
+            if q is not None and q.carrier == "timedelta":
+                return q.then("days*86400000 + seconds*1000 + microseconds//1000 (integer floor)", carrier="int", unit="ms", trunc="floor-exact")
     if h in ("div", "mul", "floordiv", "add", "sub", "mod") and len(t) == 3:
         a, b = analyse(t[1], hole), analyse(t[2], hole)
         ca, cb = k_const(t[1]), k_const(t[2])
